@@ -90,6 +90,71 @@ def random_deep_input(rng, no, ns, cat_p=0.7):
     return d
 
 
+def simulated_input(rng, no_max, ns, nf=0, ordered=False, p_dup=0.25, p_hgt=0.2, p_loss=0.12, p_seg=0.3, p_gain=0.25, st=None):
+    """Input obtained by SIMULATING the documented event model forward in time: a lineage starts at the species root and speciates,
+    duplicates, is transferred to an incomparable species or is lost; syntenies lose a random segment along branches and gain new
+    families at internal nodes.  Optimal reconciliations of such inputs contain every event kind, ties and losses across gene-less
+    species far more often than with independently drawn leaf data.  Returns None if no tree with 2..no_max leaves came out."""
+    from engine.oracles.trees import OTree
+    sl = [SP_NAMES[i] for i in range(ns)]
+    st = st if st is not None else random_plane_tree(rng, sl)
+    S = OTree(st, "s")
+    fams = [chr(ord("a") + i) for i in range(nf)]
+    for _attempt in range(60):
+        leaves, leafmap, leafsyn = [], {}, {}
+        unused = list(fams)
+        rng.shuffle(unused)
+        budget = [3 * no_max]
+
+        def mutate(syn):
+            syn = list(syn)
+            if nf and syn and rng.random() < p_seg and len(syn) > 1:
+                i = rng.randrange(len(syn))
+                j = rng.randint(i + 1, min(len(syn), i + 2))
+                if j - i < len(syn):
+                    del syn[i:j]
+            if nf and unused and rng.random() < p_gain:
+                syn.insert(rng.randrange(len(syn) + 1), unused.pop())
+            return syn
+
+        def evolve(s, syn):
+            budget[0] -= 1
+            if budget[0] < 0:
+                return None
+            r = rng.random()
+            others = [t for t in range(S.n) if not S.comparable(s, t)]
+            if r < p_dup:
+                parts = [evolve(s, mutate(syn)), evolve(s, mutate(syn))]
+            elif r < p_dup + p_hgt and others:
+                parts = [evolve(s, mutate(syn)), evolve(rng.choice(others), mutate(syn))]
+            elif r < p_dup + p_hgt + p_loss:
+                return None
+            elif not S.children[s]:
+                name = f"g{len(leaves)}"
+                leaves.append(name)
+                leafmap[name] = S.name[s]
+                leafsyn[name] = list(syn)
+                return name
+            else:
+                parts = [evolve(c, mutate(syn)) for c in S.children[s]]
+            parts = [p for p in parts if p is not None]
+            if not parts:
+                return None
+            return parts[0] if len(parts) == 1 else tuple(parts)
+
+        root_syn = [unused.pop() for _ in range(max(1, nf // 2))] if nf else []
+        t = evolve(0, root_syn)
+        if t is None or isinstance(t, str) or not (2 <= len(leaves) <= no_max):
+            continue
+        if nf and any(not v for v in leafsyn.values()):
+            continue
+        d = {"ot": t, "st": st, "leafmap": leafmap}
+        if nf:
+            d["leafsyn"] = leafsyn if ordered else {k: sorted(v) for k, v in leafsyn.items()}
+        return d
+    return None
+
+
 def random_syntenies(rng, leaves, fams, ordered, consistent_p=0.8):
     fams = list(fams)
     out = {}
